@@ -248,3 +248,27 @@ contract('gnpy.topology.spectrum_assignment.spectrum_selection', name='gnpy.topo
                   ('none_only_if_infeasible', 'implies(result[0] is None, given([OKWIN(bm, c, requested_m), '
                                               'forall(lambda t: bm.bitmap[t] == BitmapValue.FREE, c - requested_m, c + requested_m)], False))')],
          use_at_calls=False, modifies=[], hints=['requested_n - test_oms.spectrum_bitmap.n_min'])
+
+# ---- aggregate over the OMS of a path.  Structure bound of these contracts: two OMS in oms_list, paths crossing one
+# or both (sizes, extents and contents of the maps are unbounded).
+SPEC_AGG = SPEC_SEL2 + '''
+def SAME_EXTENT(a, b):
+    return a.n_min == b.n_min and a.n_max == b.n_max
+'''
+_A, _B = 'oms_list[0].spectrum_bitmap', 'oms_list[1].spectrum_bitmap'
+_REQ2 = [('wf_a', f'WF({_A})'), ('wfi_a', f'WFI({_A})'), ('vals_a', f'VALS({_A}.bitmap)'),
+         ('wf_b', f'WF({_B})'), ('wfi_b', f'WFI({_B})'), ('vals_b', f'VALS({_B}.bitmap)'),
+         ('aligned', f'SAME_EXTENT({_A}, {_B})')]
+for _po, _free in (([0], f'{_A}.bitmap[k] == BitmapValue.FREE'),
+                   ([0, 1], f'{_A}.bitmap[k] == BitmapValue.FREE and {_B}.bitmap[k] == BitmapValue.FREE')):
+    contract('gnpy.topology.spectrum_assignment.aggregate_oms_bitmap',
+             name=f'gnpy.topology.spectrum_assignment.aggregate_oms_bitmap[path over OMS {_po}]', props=['C14'],
+             params={'path_oms': const(_po), 'oms_list': lst(OMSB('a'), OMSB('b'))}, spec=SPEC_AGG,
+             let={'r': 'result.spectrum_bitmap'},
+             requires=_REQ2,
+             ensures=[('wf', 'WF(r)'), ('indices', 'WFI(r)'), ('extent', f'SAME_EXTENT(r, {_A})'),
+                      ('free_iff_free_on_every_oms_of_the_path',
+                       f'forall(lambda k: iff(r.bitmap[k] == BitmapValue.FREE, {_free}), len(r.bitmap))'),
+                      # the scratch map must not share its list with a real OMS (it is written by compute_n_m)
+                      ('fresh_list_a', f'r.bitmap is not {_A}.bitmap'), ('fresh_list_b', f'r.bitmap is not {_B}.bitmap')],
+             use_at_calls=False, modifies=[])
